@@ -2575,8 +2575,8 @@ def check_kind_siblings(ck, rule, prog, file_rx=r".*", floor=0):
         return x.kind in ("Fn", "AssocFn") and not (x.exported or x.reachable or x.impl_trait)
 
     def feats(b, depth=2):
-        """(crate functions called, suspicious std steps, private helpers looked into).  A private helper is looked INTO (its own calls count
-        as the variant's): one variant written through a shared helper and a sibling written out in full then compare equal"""
+        """(crate functions called, suspicious std steps, private helpers looked into).  With depth > 0 a private helper is looked INTO (its own
+        calls count as the variant's); depth 0 lists the helper by name"""
         cc, st, hs = set(), set(), set()
         for fb in prog.family(b):
             for bi, t in fb.calls():
@@ -2586,7 +2586,7 @@ def check_kind_siblings(ck, rule, prog, file_rx=r".*", floor=0):
                     nm = _abs_kind(tg.name or "?")
                     if nm in PLAIN:
                         continue
-                    if depth and is_private_helper(tg) and tg.id != b.id and not tg.natural_loops():
+                    if depth and is_private_helper(tg) and tg.id != b.id:
                         c2, s2, h2 = feats(tg, depth - 1)
                         cc |= c2
                         st |= s2
@@ -2606,13 +2606,33 @@ def check_kind_siblings(ck, rule, prog, file_rx=r".*", floor=0):
     for key, bs in sorted(kind_sibling_groups(prog).items()):
         if not any(re.search(file_rx, b.file or "") for b in bs):
             continue
-        F = {b.id: feats(b) for b in bs}
+        # compared as written (helpers by name); what then stands out is excused when looking INTO the private helpers of either side
+        # makes it disappear: one variant written through a shared helper and a sibling written out in full are the same operation
+        F = {b.id: feats(b, 0) for b in bs}
+        FX = {b.id: feats(b, 2) for b in bs}
+        helper_by_name = {}
+        for b in bs:
+            for fb in prog.family(b):
+                for _, t in fb.calls():
+                    tg = prog.bodies.get(t.callee.res or "")
+                    if tg is not None and tg.kind != "Closure" and is_private_helper(tg):
+                        helper_by_name.setdefault(_abs_kind(tg.name or "?"), tg)
         n += 1
         odd = []
         for b in bs:
-            others = [F[o.id] for o in bs if o.id != b.id]
-            ecc = F[b.id][0] - set().union(*[o[0] for o in others])
-            est = F[b.id][1] - set().union(*[o[1] for o in others])
+            others = [o.id for o in bs if o.id != b.id]
+            o_cc = set().union(*[F[o][0] | FX[o][0] for o in others])
+            o_st_plain = set().union(*[F[o][1] for o in others])
+            o_st = set().union(*[F[o][1] | FX[o][1] for o in others])
+            ecc = set()
+            for x in F[b.id][0] - o_cc:
+                hb_ = helper_by_name.get(x)
+                if hb_ is not None:
+                    c2, s2, _ = feats(hb_, 2)
+                    if c2 <= o_cc and s2 <= o_st:
+                        continue
+                ecc.add(x)
+            est = F[b.id][1] - o_st
             if ecc or est:
                 odd.append((b, sorted(ecc), sorted(est)))
         label = key.rsplit("::", 1)[-1]
